@@ -136,6 +136,7 @@ func runC18(c *Ctx) {
 		c18Gates(c, ag)
 		c18Dispatch(c, ag)
 		c18ResetQueues(c, ag)
+		c18StallChangesNothing(c, ag)
 	}
 	c.Floor("dispatch", 12)
 	c.Floor("pause-gate", 40)
@@ -1245,4 +1246,56 @@ func c18ResetQueues(c *Ctx, ag ctrlAgent) {
 		c.Check(ok, "reset-queues", ag.rel+":State."+fld.Name(), handlers[0].Pos(), "re-initialised by Reset",
 			"State."+fld.Name()+" holds a buffer or pipeline of in-flight work but the Reset handler never clears it: work staged there before the Reset keeps flowing and answers pre-reset requests after the Reset was acknowledged")
 	}
+}
+
+// c18StallChangesNothing: a control step that gives up because the Control port
+// cannot send ("if !ctrlPort.CanSend() { return false }") is retried on the next
+// tick; it must not have changed the component's State before the test.
+func c18StallChangesNothing(c *Ctx, ag ctrlAgent) {
+	p := c.P
+	n := 0
+	for _, fn := range p.SrcFuncs(func(pp string) bool { return pp == pkgPath(ag.rel) }) {
+		for _, b := range fn.Blocks {
+			ifi, ok := b.Instrs[len(b.Instrs)-1].(*ssa.If)
+			if !ok {
+				continue
+			}
+			cond, neg := ifi.Cond, false
+			for {
+				if u, isU := cond.(*ssa.UnOp); isU && u.Op == token.NOT {
+					cond, neg = u.X, !neg
+					continue
+				}
+				break
+			}
+			call, isCall := cond.(*ssa.Call)
+			if !isCall || !call.Common().IsInvoke() || call.Common().Method.Name() != "CanSend" || portNameOf(call.Common().Value, 0) != "Control" {
+				continue
+			}
+			stall := b.Succs[1]
+			if neg {
+				stall = b.Succs[0]
+			}
+			if _, isRet := stall.Instrs[len(stall.Instrs)-1].(*ssa.Return); !isRet {
+				continue
+			}
+			n++
+			bad := ""
+			for _, bb := range fn.Blocks {
+				for _, in := range bb.Instrs {
+					st, isSt := in.(*ssa.Store)
+					if !isSt || !stateRooted(st.Addr) || !InstrDominates(in, ifi) {
+						continue
+					}
+					if !strings.Contains(VKey(st.Addr), ".State") {
+						continue
+					}
+					bad += "State." + shortKey(VKey(st.Addr)) + " is assigned at " + p.Rel(st.Pos()) + " before the test; "
+				}
+			}
+			c.Check(bad == "", "stall-changes-nothing", ag.rel+":"+SSAFuncKey(fn)+"@CanSend", ifi.Pos(), "nothing is changed before the Control port's CanSend test",
+				bad+"when the Control port cannot send, the step returns to be retried but the state it needs is gone (a Drain that already left 'draining' is never acknowledged; commands queued behind it overtake it)")
+		}
+	}
+	c.Check(n >= 4, "stall-changes-nothing", ag.rel+":instances", token.NoPos, "Control-port stall tests found ("+itoa(n)+")", "fewer than four CanSend tests on the Control port were found in "+ag.rel)
 }
